@@ -411,6 +411,13 @@ class Model:
                 xx = type(x)(x.shape, [v * v for v in x.data]) if isinstance(x, XArray) else x * x
                 tot = self.ufunc_call("add", (xx,), method="reduce", axis=axis) if isinstance(xx, FeV) else UFunc("add", _UF["add"]).reduce(xx, axis=axis)
                 return tot * Q(1, n)
+            if name in ("all", "any") and not args and not kwargs:
+                vals = list(XArray.from_nested(plain(selfv)).data)
+                if not all(isinstance(v, bool) for v in vals):
+                    from .xeval import exact as _exact
+
+                    vals = [(v if isinstance(v, bool) else not (_exact(v) == 0)) for v in vals]
+                return all(vals) if name == "all" else any(vals)
             if name == "ravel":
                 a = selfv
                 r = XArray.ravel(a)
